@@ -7,6 +7,8 @@
  * grandchild that keeps stdout/stderr open and sleeps, then exit like
  * "accept").  Otherwise: all keep-tokens present -> "bug" (exit 1), else
  * "ok" (exit 0).  One line is appended to LOGFILE per invocation.
+ * "sleepif=TOKEN:MS" delays the answer by MS milliseconds when TOKEN is
+ * PRESENT in the file (a slow golden run without slow candidates).
  */
 #include <fcntl.h>
 #include <signal.h>
@@ -54,6 +56,14 @@ int main(int argc, char **argv) {
     char *eq = strchr(part, '=');
     if (!eq) continue;
     *eq = 0;
+    if (strcmp(part, "sleepif") == 0) {
+      char *colon = strchr(eq + 1, ':');
+      if (colon) {
+        *colon = 0;
+        if (has_token(eq + 1)) usleep((useconds_t)atoi(colon + 1) * 1000);
+      }
+      continue;
+    }
     char *save2;
     for (char *tok = strtok_r(eq + 1, ",", &save2); tok; tok = strtok_r(NULL, ",", &save2)) {
       if (!has_token(tok)) {
